@@ -25,8 +25,8 @@ RULE = ('cases = random DAG spec (Constant/Operation/Prior/Simulator/Summary/Dis
 ASSUMPTIONS = ['batch_size 0 is not requested (elfi maps it to 1 by design of ComputationContext)',
                '"rejected" = any exception raised by the request']
 CONFIG = {
-    'quick': {'shards': 16, 'cases': 120, 'timeout': 600, 'floor': 600},
-    'thorough': {'shards': 32, 'cases': 4000, 'timeout': 3000, 'floor': 30000},
+    'quick': {'shards': 16, 'cases': 1800, 'timeout': 600, 'floor': 9000},
+    'thorough': {'shards': 32, 'cases': 40000, 'timeout': 5400, 'floor': 300000},
 }
 REQUIRED = ['requests', 'terms_equal', 'call_counters_checked', 'rejections_agreed', 'twin_requests', 'with_values_requests',
             'batchhandler_batches', 'meta_nodes_evaluated', 'named_edges_evaluated', 'wide_nodes_evaluated']
